@@ -17,7 +17,7 @@ def _describe(s):
 
 
 TIMERS_INV = ["CountsToZero", "ValueLatched", "EventWhenZero", "IrqIsPendingEnabled", "OneShotExact",
-              "PeriodAsDocumented", "RemainingRule", "WdtFiresAtZero", "WdtOnlyAtZero", "WdtReset",
+              "PeriodAsDocumented", "RemainingRule", "WdtFiresAtZero", "WdtNotEarly", "WdtOnlyAtZero", "WdtReset",
               "WaitTimerExact", "TimelineExact", "PwmDuty", "PwmOneBlock", "PwmOffWhenDisabled"]
 
 UART_INV = ["TxWaveform", "TxBitLength", "TxIdleHigh", "TxReadyOnce", "RxNoSpurious", "RxRightByte", "RxDelivered"]
@@ -129,6 +129,86 @@ def _run_family(name, report, tier, only=None, log=print, batch=12, nproc=8, **k
     return stats
 
 
+# ----------------------------------------------------------------------------- T-mode
+TMODE_HINTS = {"uart": fam.UartHint, "timers": fam.TimersHint, "spim": fam.SpiHint, "spis": fam.SpiSlaveHint,
+               "i2c": fam.I2cHint}
+
+
+_COMPLETION_OUTPUT = {"tx": 0, "rx": 0, "timer": 4, "wdt": 3, "wait": 0, "tline": 0, "pwm": 0, "spim": 1, "spis": 3, "i2c": 5}
+
+
+def tmode_trace(spec, cfg, hint, ncycles, rnd):
+    """closed-loop random walk of the environment of cfg on the real netlist from reset (plain
+    cycle-by-cycle run of the stepper, no state loading): -> [[iv, o], ...].  The candidate moves come
+    from families.periph.tmode_candidates, filtered by the family's hint; whether the walk was a legal
+    environment behaviour is judged by TLC (EnvLegal), like everything else."""
+    from ..fhdl_step import Stepper
+    made = fam.make(spec)
+    st = Stepper(made[0], made[1], made[2])
+    ctx = hint.init(cfg)
+    st.load(st.reset_state, tuple(0 for _ in st.inputs))
+    ev = []
+    for _ in range(ncycles):
+        for iv in fam.tmode_candidates(cfg, ctx, rnd):
+            if not hint.allowed(cfg, ctx, iv):
+                continue
+            st.load(st.state(), iv)
+            o = st.peek()
+            nctx = hint.next(cfg, ctx, iv, o)
+            if nctx != "dead":
+                break
+        else:
+            raise MachineryError("T-mode driver of %s has no legal move" % _describe(spec))
+        ev.append([list(iv), [int(x) for x in o]])
+        st.tick()
+        ctx = nctx
+    return ev
+
+
+def _run_tmode(report, tier, seed, log=print):
+    import random
+    from .. import tracecheck
+    rnd = random.Random(seed * 104729 + 19)
+    per = 1 if tier == "quick" else 3
+    byfam = {}
+    for famname, spec, cfg, cycles in fam.tmode_configs(tier):
+        for k in range(per):
+            ev = tmode_trace(spec, cfg, TMODE_HINTS[famname](), cycles, rnd)
+            # vacuity guard (cross-check only): the run must contain completions (ready / valid / zero /
+            # time-out / done / pulses / irq / idle, per kind)
+            i = _COMPLETION_OUTPUT[cfg["kind"]]
+            done = sum(1 for a, b in zip(ev, ev[1:]) if a[1][i] == 0 and b[1][i] != 0)
+            if done == 0:
+                raise MachineryError("T-mode run of %s contains no completed operation" % _describe(spec))
+            report.add(tmode_completions=done)
+            tcfg = dict(cfg)
+            tcfg["stallbound"] = 10**8
+            byfam.setdefault(famname, []).append((spec, {"cfg": tcfg, "ev": ev}))
+    total = 0
+    for famname, items in byfam.items():
+        family, invs, _, _ = FAMILIES[famname]
+        traces = [t for _, t in items]
+        fails, st = tracecheck.validate(family.trace_module, traces, invs, workers=4, heap="4g")
+        log("T-mode %s: %d traces, %d cycles, %d TLC states, %d rejected" % (
+            famname, len(traces), sum(len(t["ev"]) for t in traces), st["states"], len(fails)))
+        total += len(traces)
+        report.add(traces_validated_against_impl=len(traces), trace_states=st["states"], states=st["states"],
+                   transitions=st["transitions"])
+        report.sample({"tmode_trace": {"dut": _describe(items[0][0]), "cycles": len(traces[0]["ev"]),
+                                       "first_cycles": traces[0]["ev"][:4]}}, cap=12)
+        for f in fails:
+            spec, tr = items[f["tid"]]
+            sched = [e[0] for e in tr["ev"][:f["l"]]]
+            report.violation({"dut": spec, "clause": f["clause"], "mode": "T"},
+                             {"family": family.graph_module, "factory": family.factory_path, "spec": spec,
+                              "cfg": tr["cfg"], "schedule": sched, "trace_module": family.trace_module,
+                              "trace_invariants": invs, "observed": tr["ev"][max(0, f["l"] - 200):f["l"]],
+                              "clause": f["clause"]},
+                             "%s violated by %s in a recorded run at realistic parameters, cycle %s" % (
+                                 f["clause"], _describe(spec), f["l"]))
+    return total
+
+
 # ----------------------------------------------------------------------------- parallel tasks
 class _TaskReport(Report):
     """Report of one task process: records what the task reports; the parent replays the record on
@@ -160,6 +240,10 @@ def _task_main(conn, name, task, report, tier):
     rep = _TaskReport(report)
     tag = "[%s/%s] " % (name, task)
     try:
+        if name == "tmode":
+            _run_tmode(rep, tier, report.seed, log=lambda x: print(tag + x, flush=True))
+            conn.send(("ok", rep.calls, []))
+            return
         st = _run_family(name, rep, tier, only=lambda spec, cfg: str(cfg.get("task", "a")) == task,
                          log=lambda x: print(tag + x, flush=True), spec_budget=400000, heap="4g",
                          tlc_timeout=1500 if tier == "quick" else 3000)
@@ -191,6 +275,7 @@ def tasks(tier):
     for name in FAMILIES:
         for t in sorted({str(c.get("task", "a")) for _, c in FAMILIES[name][3](tier)}):
             out.append((name, t))
+    out.append(("tmode", "a"))
     return out
 
 
